@@ -81,17 +81,10 @@ Proof.
 Qed.
 Definition ty_eqb_refl := proj1 ty_eqb_refl_both.
 
-Lemma py_scalar_eq_refl a : py_scalar_eq a a = true.
-Proof. destruct a; cbn; auto using Bool.eqb_reflx, Z.eqb_refl, pstr_eqb_refl. Qed.
-
 Lemma key_eqb_refl k : key_eqb k k = true.
-Proof.
-  destruct k; cbn; try apply (ty_eqb_refl (TLeaf _)).
-  all: try (match goal with |- ty_eqb ?a ?b = true => apply (ty_eqb_refl a) end).
-  all: try apply list_eqb_refl, py_scalar_eq_refl.
-  all: rewrite ?seqkind_eqb_refl, ?opt_pstr_eqb_refl, ?pstr_eqb_refl, ?Nat.eqb_refl,
-         ?(proj1 ty_eqb_refl_both), ?(proj2 ty_eqb_refl_both); auto.
-Qed.
+Proof. apply ty_eqb_refl. Qed.
+Lemma key_eqb_eq a b : key_eqb a b = true -> a = b.
+Proof. apply ty_eqb_eq. Qed.
 
 (* ---- guard / function table ----------------------------------------------------- *)
 Definition ext (gd G : list (ty * pstr)) : Prop :=
@@ -115,6 +108,13 @@ Proof. intros k kf H. rewrite guard_lookup_app, H. reflexivity. Qed.
 Lemma guard_lookup_new gd k f :
   guard_lookup gd k = None -> guard_lookup (gd ++ [(k, f)]) k = Some (k, f).
 Proof. intro H. rewrite guard_lookup_app, H. cbn. now rewrite key_eqb_refl. Qed.
+
+Lemma guard_lookup_exact gd k k' f : guard_lookup gd k = Some (k', f) -> k' = k.
+Proof.
+  induction gd as [|[k0 f0] gd IH]; cbn; try congruence.
+  destruct (key_eqb k k0) eqn:E; intro H; auto.
+  inversion H; subst. symmetry. now apply key_eqb_eq.
+Qed.
 
 Lemma guard_lookup_in gd k k' f : guard_lookup gd k = Some (k', f) -> In (k', f) gd.
 Proof.
@@ -242,7 +242,7 @@ Section Eqs.
   Proof. reflexivity. Qed.
   Lemma gen_ty_union ts ti cn g :
     gen_ty ct gc (TUnion ts) ti cn g =
-    with_helper (TUnion ts) (generic_name cn "union" (ti_fi ti)) ti g
+    with_helper (TUnion ts) (generic_name cn "union" (ti_fi ti) (List.length (g_guard g))) ti g
       (fun g1 => match gen_list ct gc MSame ts 0 (ti_fn (ti_fi ti) (has_none ts)) cn g1 with
                  | Ok (es, g2) => Ok (FUnion (mk_alts ts es), g2) | Err e => Err e end).
   Proof. reflexivity. Qed.
@@ -285,31 +285,28 @@ Definition good_step {A} (ct : ctable) (step : gstate -> result (A * gstate))
            (pc : list (ty * pstr) -> option A) : Prop :=
   forall g a g', step g = Ok (a, g') ->
     ext (g_guard g) (g_guard g') /\
-    (g_alias g' = false -> g_alias g = false) /\
-    forall G, ext (g_guard g') G -> g_alias g' = false ->
+    forall G, ext (g_guard g') G ->
       pc G = Some a /\ (fns_ok G ct (g_fns g) -> fns_ok G ct (g_fns g')).
 
-Lemma good_with_helper ct key name ti body fi :
+Lemma good_with_helper ct key (name : gstate -> pstr) ti body fi :
   good_step ct body (fun G => body_of G ct fi key) ->
-  good_step ct (fun g => with_helper key name ti g body) (fun G => cmp_helper G key ti).
+  good_step ct (fun g => with_helper key (name g) ti g body) (fun G => cmp_helper G key ti).
 Proof.
   intros Hb g a g' H. unfold with_helper in H.
   destruct (guard_lookup (g_guard g) key) as [[k' f]|] eqn:EL.
-  - inversion H; subst; clear H. cbn. split; [apply ext_refl|]. split.
-    + intro Ha. apply orb_false_iff in Ha. tauto.
-    + intros G HG Ha. apply orb_false_iff in Ha as [_ Hx]. apply negb_false_iff in Hx.
-      split; auto. unfold cmp_helper. rewrite (HG _ _ EL), Hx. reflexivity.
-  - destruct (body (add_guard g key name)) as [[b g2]|e] eqn:EB; [|discriminate].
+  - inversion H; subst; clear H. split; [apply ext_refl|].
+    intros G HG. split; auto. unfold cmp_helper. rewrite (HG _ _ EL).
+    rewrite (guard_lookup_exact _ _ _ _ EL). now rewrite (ty_eqb_refl key).
+  - destruct (body (add_guard g key (name g))) as [[b g2]|e] eqn:EB; [|discriminate].
     inversion H; subst; clear H.
-    destruct (Hb _ _ _ EB) as (Hext & Hal & Hpc). cbn in *. split; [|split].
+    destruct (Hb _ _ _ EB) as (Hext & Hpc). cbn in *. split.
     + eapply ext_trans; [apply ext_app|exact Hext].
-    + exact Hal.
-    + intros G HG Ha. destruct (Hpc G HG Ha) as (Hbody & Hf). split.
+    + intros G HG. destruct (Hpc G HG) as (Hbody & Hf). split.
       * unfold cmp_helper.
-        rewrite (HG _ _ (Hext _ _ (guard_lookup_new _ _ name EL))).
+        rewrite (HG _ _ (Hext _ _ (guard_lookup_new _ _ (name g) EL))).
         now rewrite (ty_eqb_refl key).
       * intros Hok f k b0 HL. rewrite fn_lookup_set in HL.
-        destruct (pstr_eqb f name).
+        destruct (pstr_eqb f (name g)).
         -- inversion HL; subst. eauto.
         -- eapply (Hf Hok); eauto.
 Qed.
@@ -328,84 +325,84 @@ Section GenInv.
       intros l ti cn g a g' H.
       assert (g' = g /\ cmp [] (TLeaf l) ti = Some a) as [-> Hc].
       { destruct l; cbn in *; inversion H; subst; auto. }
-      split; [apply ext_refl|]. split; [auto|]. intros G _ _. split; [|auto].
+      split; [apply ext_refl|]. intros G _. split; [|auto].
       destruct l; exact Hc.
     - (* seq *)
       intros k t IH ti cn g a g' H. cbn in H.
       destruct (gen_ty ct gen_cls t (ti_next ti) cn g) as [[b g1]|] eqn:E; [|discriminate].
-      inversion H; subst; clear H. destruct (IH _ _ _ _ _ E) as (H1 & H2 & H3).
-      split; auto. split; auto. intros G HG Ha. destruct (H3 G HG Ha) as [Hc Hf].
+      inversion H; subst; clear H. destruct (IH _ _ _ _ _ E) as (H1 & H3).
+      split; auto. intros G HG. destruct (H3 G HG) as [Hc Hf].
       split; auto. cbn. now rewrite Hc.
     - (* tuple *)
       intros ts IH ti cn g a g' H. rewrite gen_ty_tuple in H.
       destruct (gen_list ct gen_cls MElem ts 0 ti cn g) as [[es g1]|] eqn:E; [|discriminate].
-      inversion H; subst; clear H. destruct (IH _ _ _ _ _ _ _ E) as (H1 & H2 & H3).
-      split; auto. split; auto. intros G HG Ha. destruct (H3 G HG Ha) as [Hc Hf].
+      inversion H; subst; clear H. destruct (IH _ _ _ _ _ _ _ E) as (H1 & H3).
+      split; auto. intros G HG. destruct (H3 G HG) as [Hc Hf].
       split; auto. rewrite cmp_tuple. now rewrite Hc.
     - (* dict *)
       intros dd kt IHk vt IHv ti cn g a g' H. cbn in H.
       destruct (gen_ty ct gen_cls kt (ti_key ti) cn g) as [[kb g1]|] eqn:E1; [|discriminate].
       destruct (gen_ty ct gen_cls vt (ti_val ti) cn g1) as [[vb g2]|] eqn:E2; [|discriminate].
       inversion H; subst; clear H.
-      destruct (IHk _ _ _ _ _ E1) as (A1 & A2 & A3). destruct (IHv _ _ _ _ _ E2) as (B1 & B2 & B3).
-      split; [eapply ext_trans; eauto|]. split; auto.
-      intros G HG Ha. destruct (B3 G HG Ha) as [Hc2 Hf2].
-      destruct (A3 G (ext_trans _ _ _ B1 HG) (B2 Ha)) as [Hc1 Hf1].
+      destruct (IHk _ _ _ _ _ E1) as (A1 & A3). destruct (IHv _ _ _ _ _ E2) as (B1 & B3).
+      split; [eapply ext_trans; eauto|].
+      intros G HG. destruct (B3 G HG) as [Hc2 Hf2].
+      destruct (A3 G (ext_trans _ _ _ B1 HG)) as [Hc1 Hf1].
       split; auto. cbn. now rewrite Hc1, Hc2.
     - (* opt *)
       intros t IH ti cn g a g' H. cbn in H.
       destruct (gen_ty ct gen_cls t (ti_inopt ti) cn g) as [[b g1]|] eqn:E; [|discriminate].
-      inversion H; subst; clear H. destruct (IH _ _ _ _ _ E) as (H1 & H2 & H3).
-      split; auto. split; auto. intros G HG Ha. destruct (H3 G HG Ha) as [Hc Hf].
+      inversion H; subst; clear H. destruct (IH _ _ _ _ _ E) as (H1 & H3).
+      split; auto. intros G HG. destruct (H3 G HG) as [Hc Hf].
       split; auto. cbn. now rewrite Hc.
     - (* union *)
       intros ts IH ti cn. intros g0 a0 g0' H0. rewrite gen_ty_union in H0. revert g0 a0 g0' H0.
-      apply (good_with_helper ct (TUnion ts) _ ti _ (ti_fi ti)).
+      apply (good_with_helper ct (TUnion ts) (fun g => generic_name cn "union" (ti_fi ti) (List.length (g_guard g))) ti _ (ti_fi ti)).
       intros g a g' H.
       destruct (gen_list ct gen_cls MSame ts 0 (ti_fn (ti_fi ti) (has_none ts)) cn g) as [[es g1]|] eqn:E; [|discriminate].
-      inversion H; subst; clear H. destruct (IH _ _ _ _ _ _ _ E) as (H1 & H2 & H3).
-      split; auto. split; auto. intros G HG Ha. destruct (H3 G HG Ha) as [Hc Hf].
+      inversion H; subst; clear H. destruct (IH _ _ _ _ _ _ _ E) as (H1 & H3).
+      split; auto. intros G HG. destruct (H3 G HG) as [Hc Hf].
       split; auto. cbn. now rewrite Hc.
     - (* literal *)
       intros vs ti cn.
-      apply (good_with_helper ct (TLit vs) _ ti _ 0).
-      intros g a g' H. inversion H; subst. split; [apply ext_refl|]. split; auto.
+      apply (good_with_helper ct (TLit vs) (fun g => generic_name cn "literal" (ti_fi ti) (List.length (g_guard g))) ti _ 0).
+      intros g a g' H. inversion H; subst. split; [apply ext_refl|]. intros G _. split; [reflexivity|auto].
     - (* named *)
       intros n fs IH ti cn. intros g0 a0 g0' H0. rewrite gen_ty_named in H0. revert g0 a0 g0' H0.
-      apply (good_with_helper ct (TNamed n fs) _ ti _ (ti_fi ti)).
+      apply (good_with_helper ct (TNamed n fs) (fun _ => named_name cn "named_tuple" n) ti _ (ti_fi ti)).
       intros g a g' H.
       destruct (gen_list ct gen_cls MElem fs 0 (ti_fn (ti_fi ti) false) cn g) as [[es g1]|] eqn:E; [|discriminate].
-      inversion H; subst; clear H. destruct (IH _ _ _ _ _ _ _ E) as (H1 & H2 & H3).
-      split; auto. split; auto. intros G HG Ha. destruct (H3 G HG Ha) as [Hc Hf].
+      inversion H; subst; clear H. destruct (IH _ _ _ _ _ _ _ E) as (H1 & H3).
+      split; auto. intros G HG. destruct (H3 G HG) as [Hc Hf].
       split; auto. cbn. now rewrite Hc.
     - (* typed *)
       intros n req IHr opt IHo ti cn. intros g0 a0 g0' H0. rewrite gen_ty_typed in H0. revert g0 a0 g0' H0.
-      apply (good_with_helper ct (TTyped n req opt) _ ti _ (ti_fi ti)).
+      apply (good_with_helper ct (TTyped n req opt) (fun _ => named_name cn "typed_dict" n) ti _ (ti_fi ti)).
       intros g a g' H.
       destruct (gen_list ct gen_cls MKey req 0 (ti_fn (ti_fi ti) false) cn g) as [[rs g1]|] eqn:E1; [|discriminate].
       destruct (gen_list ct gen_cls MSame opt 0 (ti_fn2 (ti_fi ti)) cn g1) as [[os g2]|] eqn:E2; [|discriminate].
       inversion H; subst; clear H.
-      destruct (IHr _ _ _ _ _ _ _ E1) as (A1 & A2 & A3). destruct (IHo _ _ _ _ _ _ _ E2) as (B1 & B2 & B3).
-      split; [eapply ext_trans; eauto|]. split; auto.
-      intros G HG Ha. destruct (B3 G HG Ha) as [Hc2 Hf2].
-      destruct (A3 G (ext_trans _ _ _ B1 HG) (B2 Ha)) as [Hc1 Hf1].
+      destruct (IHr _ _ _ _ _ _ _ E1) as (A1 & A3). destruct (IHo _ _ _ _ _ _ _ E2) as (B1 & B3).
+      split; [eapply ext_trans; eauto|].
+      intros G HG. destruct (B3 G HG) as [Hc2 Hf2].
+      destruct (A3 G (ext_trans _ _ _ B1 HG)) as [Hc1 Hf1].
       split; auto. cbn. now rewrite Hc1, Hc2.
     - (* data *)
       intros c ti cn g a g' H. cbn [gen_ty] in H.
       destruct (nth_error ct c) as [cd|] eqn:En; [|discriminate].
-      exact (good_with_helper ct (TData c) _ ti _ 0 (Hcls c) g a g' H).
+      exact (good_with_helper ct (TData c) (fun _ => dc_name (c_name cd)) ti _ 0 (Hcls c) g a g' H).
     - (* nil *)
       intros m k ti cn g a g' H. inversion H; subst.
-      split; [apply ext_refl|]. split; auto.
+      split; [apply ext_refl|]. intros G _. split; [reflexivity|auto].
     - (* cons *)
       intros lbl t IHt r IHr m k ti cn g a g' H. rewrite gen_list_cons in H.
       destruct (gen_ty ct gen_cls t (ti_at m ti k lbl) cn g) as [[e g1]|] eqn:E1; [|discriminate].
       destruct (gen_list ct gen_cls m r (Datatypes.S k) ti cn g1) as [[es g2]|] eqn:E2; [|discriminate].
       inversion H; subst; clear H.
-      destruct (IHt _ _ _ _ _ E1) as (A1 & A2 & A3). destruct (IHr _ _ _ _ _ _ _ E2) as (B1 & B2 & B3).
-      split; [eapply ext_trans; eauto|]. split; auto.
-      intros G HG Ha. destruct (B3 G HG Ha) as [Hc2 Hf2].
-      destruct (A3 G (ext_trans _ _ _ B1 HG) (B2 Ha)) as [Hc1 Hf1].
+      destruct (IHt _ _ _ _ _ E1) as (A1 & A3). destruct (IHr _ _ _ _ _ _ _ E2) as (B1 & B3).
+      split; [eapply ext_trans; eauto|].
+      intros G HG. destruct (B3 G HG) as [Hc2 Hf2].
+      destruct (A3 G (ext_trans _ _ _ B1 HG)) as [Hc1 Hf1].
       split; auto. rewrite cmp_list_cons. now rewrite Hc1, Hc2.
   Qed.
 
@@ -413,15 +410,15 @@ Section GenInv.
     good_step ct (gen_fields ct gen_cls fs i cn) (fun G => cmp_fields G fs i).
   Proof.
     induction fs as [|f r IH]; intros i cn g a g' H; cbn in H.
-    - inversion H; subst. split; [apply ext_refl|]. split; auto.
+    - inversion H; subst. split; [apply ext_refl|]. intros G _. split; [reflexivity|auto].
     - destruct (gen_ty ct gen_cls (f_ty f) (ti_field i) cn g) as [[e g1]|] eqn:E1; [|discriminate].
       destruct (gen_fields ct gen_cls r (Datatypes.S i) cn g1) as [[es g2]|] eqn:E2; [|discriminate].
       inversion H; subst; clear H.
-      destruct (proj1 gen_good_both _ _ _ _ _ _ E1) as (A1 & A2 & A3).
-      destruct (IH _ _ _ _ _ E2) as (B1 & B2 & B3).
-      split; [eapply ext_trans; eauto|]. split; auto.
-      intros G HG Ha. destruct (B3 G HG Ha) as [Hc2 Hf2].
-      destruct (A3 G (ext_trans _ _ _ B1 HG) (B2 Ha)) as [Hc1 Hf1].
+      destruct (proj1 gen_good_both _ _ _ _ _ _ E1) as (A1 & A3).
+      destruct (IH _ _ _ _ _ E2) as (B1 & B3).
+      split; [eapply ext_trans; eauto|].
+      intros G HG. destruct (B3 G HG) as [Hc2 Hf2].
+      destruct (A3 G (ext_trans _ _ _ B1 HG)) as [Hc1 Hf1].
       split; auto. cbn. now rewrite Hc1, Hc2.
   Qed.
 End GenInv.
@@ -432,24 +429,24 @@ Proof.
   destruct (nth_error ct c) as [cd|] eqn:En; [|discriminate].
   destruct (gen_fields ct (gen_cls_n ct n) (c_fields cd) 0 (c_name cd) g) as [[es g1]|] eqn:E; [|discriminate].
   inversion H; subst; clear H.
-  destruct (gen_fields_good ct _ IH _ _ _ _ _ _ E) as (H1 & H2 & H3).
-  split; auto. split; auto. intros G HG Ha. destruct (H3 G HG Ha) as [Hc Hf].
+  destruct (gen_fields_good ct _ IH _ _ _ _ _ _ E) as (H1 & H3).
+  split; auto. intros G HG. destruct (H3 G HG) as [Hc Hf].
   split; auto. cbn. now rewrite En, Hc.
 Qed.
 
 (* the final state of gen_main: every function is the pure compilation of its key
    against the final guard, and the main class is in the guard *)
 Lemma gen_main_inv ct n c f g :
-  gen_main ct n c = Ok (f, g) -> g_alias g = false ->
+  gen_main ct n c = Ok (f, g) ->
   fns_ok (g_guard g) ct (g_fns g) /\ guard_lookup (g_guard g) (TData c) = Some (TData c, f).
 Proof.
   unfold gen_main. destruct (nth_error ct c) as [cd|] eqn:En; [|discriminate].
   destruct (gen_cls_n ct n c _) as [[b g1]|] eqn:E; [|discriminate].
-  intros H Ha. inversion H; subst; clear H. cbn in *.
-  destruct (gen_cls_n_good ct n c _ _ _ E) as (H1 & H2 & H3). cbn in *.
-  destruct (H3 _ (ext_refl _) Ha) as [Hb Hf]. split.
+  intros H. inversion H; subst; clear H. cbn in *.
+  destruct (gen_cls_n_good ct n c _ _ _ E) as (H1 & H3). cbn in *.
+  destruct (H3 _ (ext_refl _)) as [Hb Hf]. split.
   - intros f k b0 HL. rewrite fn_lookup_set in HL. destruct (pstr_eqb f _).
     + inversion HL; subst. exists 0. exact Hb.
     + apply (Hf (fun _ _ _ X => ltac:(discriminate X)) _ _ _ HL).
-  - apply H1. cbn. now rewrite Nat.eqb_refl.
+  - apply H1. cbn. unfold key_eqb. cbn. now rewrite Nat.eqb_refl.
 Qed.
